@@ -355,10 +355,13 @@ class Cluster:
         pl.prev_leader = pl.leader
         pl.leader = to
 
-    def node_down(self, node_id, blackhole=False):
+    def node_down(self, node_id, blackhole=False, silent=False):
+        """silent: the host still accepts TCP connections but the broker process never reads or answers (a
+        connection that is established and then hangs in its ApiVersions/SASL handshake)."""
         n = self.nodes[node_id]
         n.up = False
-        n.blackhole = blackhole
+        n.blackhole = blackhole or silent
+        n.silent = silent
         for c in list(n.conns):
             if blackhole:
                 c.blackhole()
@@ -370,6 +373,7 @@ class Cluster:
         n = self.nodes[node_id]
         n.up = True
         n.blackhole = False
+        n.silent = False
 
     def schedule(self, events):
         """Timed environment events: [{'at': t, 'ev': ..., ...}]"""
@@ -394,7 +398,7 @@ class Cluster:
                 pl.elect_to = to
                 self.loop.call_at(float(e["back_at"]), self._elect, pl)
         elif ev == "node_down":
-            self.node_down(e["node"], e.get("blackhole", False))
+            self.node_down(e["node"], e.get("blackhole", False), e.get("silent", False))
         elif ev == "node_up":
             self.node_up(e["node"])
         elif ev == "move_txn_coord":
@@ -723,7 +727,7 @@ class _NodeHandler:
         self.node = node
 
     def accept(self, host, port):
-        if self.node.up:
+        if self.node.up or getattr(self.node, "silent", False):
             return "ok"
         return "blackhole" if self.node.blackhole else "refuse"
 
@@ -744,6 +748,8 @@ class _NodeHandler:
                 a.delivered = False
 
     def on_frame(self, conn, frame, t_written=None):
+        if getattr(self.node, "silent", False):
+            return                                  # accepted, never read
         self.cluster.on_frame(self.node, conn, frame, t_written)
 
 
